@@ -30,77 +30,77 @@ var nativeWhenConcrete = make(map[string]func(fr *frame, args []value) (value, b
 
 func init() {
 	for k, v := range map[string]externalFn{
-		"(reflect.Value).Bool":            ext۰reflect۰Value۰Bool,
-		"(reflect.Value).CanAddr":         ext۰reflect۰Value۰CanAddr,
-		"(reflect.Value).CanSet":          ext۰reflect۰Value۰CanSet,
-		"(reflect.Value).CanInterface":    ext۰reflect۰Value۰CanInterface,
-		"(reflect.Value).Elem":            ext۰reflect۰Value۰Elem,
-		"(reflect.Value).Field":           ext۰reflect۰Value۰Field,
-		"(reflect.Value).FieldByName":     ext۰reflect۰Value۰FieldByName,
-		"(reflect.Value).Float":           ext۰reflect۰Value۰Float,
-		"(reflect.Value).Complex":         ext۰reflect۰Value۰Complex,
-		"(reflect.Value).Bytes":           ext۰reflect۰Value۰Bytes,
-		"(reflect.Value).Index":           ext۰reflect۰Value۰Index,
-		"(reflect.Value).Int":             ext۰reflect۰Value۰Int,
-		"(reflect.Value).Interface":       ext۰reflect۰Value۰Interface,
-		"(reflect.Value).IsNil":           ext۰reflect۰Value۰IsNil,
-		"(reflect.Value).IsZero":          ext۰reflect۰Value۰IsZero,
-		"(reflect.Value).IsValid":         ext۰reflect۰Value۰IsValid,
-		"(reflect.Value).Kind":            ext۰reflect۰Value۰Kind,
-		"(reflect.Value).Len":             ext۰reflect۰Value۰Len,
-		"(reflect.Value).Cap":             ext۰reflect۰Value۰Cap,
-		"(reflect.Value).MapIndex":        ext۰reflect۰Value۰MapIndex,
-		"(reflect.Value).SetMapIndex":     ext۰reflect۰Value۰SetMapIndex,
-		"(reflect.Value).MapKeys":         ext۰reflect۰Value۰MapKeys,
-		"(reflect.Value).NumField":        ext۰reflect۰Value۰NumField,
-		"(reflect.Value).NumMethod":       ext۰reflect۰Value۰NumMethod,
-		"(reflect.Value).Method":          ext۰reflect۰Value۰Method,
-		"(reflect.Value).MethodByName":    ext۰reflect۰Value۰MethodByName,
-		"(reflect.Value).Call":            ext۰reflect۰Value۰Call,
-		"(reflect.Value).Convert":         ext۰reflect۰Value۰Convert,
-		"(reflect.Value).Addr":            ext۰reflect۰Value۰Addr,
-		"(reflect.Value).Pointer":         ext۰reflect۰Value۰Pointer,
-		"(reflect.Value).Set":             ext۰reflect۰Value۰Set,
-		"(reflect.Value).SetInt":          ext۰reflect۰Value۰SetInt,
-		"(reflect.Value).SetUint":         ext۰reflect۰Value۰SetUint,
-		"(reflect.Value).SetFloat":        ext۰reflect۰Value۰SetFloat,
-		"(reflect.Value).SetBool":         ext۰reflect۰Value۰SetBool,
-		"(reflect.Value).SetString":       ext۰reflect۰Value۰SetString,
-		"(reflect.Value).String":          ext۰reflect۰Value۰String,
-		"(reflect.Value).Type":            ext۰reflect۰Value۰Type,
-		"(reflect.Value).Uint":            ext۰reflect۰Value۰Uint,
-		"(reflect.error).Error":           ext۰reflect۰error۰Error,
-		"(reflect.rtype).Bits":            ext۰reflect۰rtype۰Bits,
-		"(reflect.rtype).Elem":            ext۰reflect۰rtype۰Elem,
-		"(reflect.rtype).Key":             ext۰reflect۰rtype۰Key,
-		"(reflect.rtype).Field":           ext۰reflect۰rtype۰Field,
-		"(reflect.rtype).In":              ext۰reflect۰rtype۰In,
-		"(reflect.rtype).Kind":            ext۰reflect۰rtype۰Kind,
-		"(reflect.rtype).NumField":        ext۰reflect۰rtype۰NumField,
-		"(reflect.rtype).NumIn":           ext۰reflect۰rtype۰NumIn,
-		"(reflect.rtype).NumMethod":       ext۰reflect۰rtype۰NumMethod,
-		"(reflect.rtype).Method":          ext۰reflect۰rtype۰Method,
-		"(reflect.rtype).MethodByName":    ext۰reflect۰rtype۰MethodByName,
-		"(reflect.rtype).IsVariadic":      ext۰reflect۰rtype۰IsVariadic,
-		"(reflect.rtype).NumOut":          ext۰reflect۰rtype۰NumOut,
-		"(reflect.rtype).Out":             ext۰reflect۰rtype۰Out,
-		"(reflect.rtype).Size":            ext۰reflect۰rtype۰Size,
-		"(reflect.rtype).String":          ext۰reflect۰rtype۰String,
-		"(reflect.rtype).Name":            ext۰reflect۰rtype۰Name,
-		"(reflect.rtype).PkgPath":         ext۰reflect۰rtype۰PkgPath,
-		"(reflect.rtype).AssignableTo":    ext۰reflect۰rtype۰AssignableTo,
-		"(reflect.rtype).ConvertibleTo":   ext۰reflect۰rtype۰ConvertibleTo,
-		"(reflect.rtype).Implements":      ext۰reflect۰rtype۰Implements,
-		"(reflect.rtype).Comparable":      ext۰reflect۰rtype۰Comparable,
-		"(reflect.rtype).Len":             ext۰reflect۰rtype۰Len,
-		"(reflect.Kind).String":           func(fr *frame, args []value) value { return reflect.Kind(args[0].(uint)).String() },
-		"reflect.New":                     ext۰reflect۰New,
-		"reflect.SliceOf":                 ext۰reflect۰SliceOf,
-		"reflect.TypeOf":                  ext۰reflect۰TypeOf,
-		"reflect.ValueOf":                 ext۰reflect۰ValueOf,
-		"reflect.Zero":                    ext۰reflect۰Zero,
-		"reflect.Append":                  ext۰reflect۰Append,
-		"reflect.DeepEqual":               ext۰reflect۰DeepEqual,
+		"(reflect.Value).Bool":          ext۰reflect۰Value۰Bool,
+		"(reflect.Value).CanAddr":       ext۰reflect۰Value۰CanAddr,
+		"(reflect.Value).CanSet":        ext۰reflect۰Value۰CanSet,
+		"(reflect.Value).CanInterface":  ext۰reflect۰Value۰CanInterface,
+		"(reflect.Value).Elem":          ext۰reflect۰Value۰Elem,
+		"(reflect.Value).Field":         ext۰reflect۰Value۰Field,
+		"(reflect.Value).FieldByName":   ext۰reflect۰Value۰FieldByName,
+		"(reflect.Value).Float":         ext۰reflect۰Value۰Float,
+		"(reflect.Value).Complex":       ext۰reflect۰Value۰Complex,
+		"(reflect.Value).Bytes":         ext۰reflect۰Value۰Bytes,
+		"(reflect.Value).Index":         ext۰reflect۰Value۰Index,
+		"(reflect.Value).Int":           ext۰reflect۰Value۰Int,
+		"(reflect.Value).Interface":     ext۰reflect۰Value۰Interface,
+		"(reflect.Value).IsNil":         ext۰reflect۰Value۰IsNil,
+		"(reflect.Value).IsZero":        ext۰reflect۰Value۰IsZero,
+		"(reflect.Value).IsValid":       ext۰reflect۰Value۰IsValid,
+		"(reflect.Value).Kind":          ext۰reflect۰Value۰Kind,
+		"(reflect.Value).Len":           ext۰reflect۰Value۰Len,
+		"(reflect.Value).Cap":           ext۰reflect۰Value۰Cap,
+		"(reflect.Value).MapIndex":      ext۰reflect۰Value۰MapIndex,
+		"(reflect.Value).SetMapIndex":   ext۰reflect۰Value۰SetMapIndex,
+		"(reflect.Value).MapKeys":       ext۰reflect۰Value۰MapKeys,
+		"(reflect.Value).NumField":      ext۰reflect۰Value۰NumField,
+		"(reflect.Value).NumMethod":     ext۰reflect۰Value۰NumMethod,
+		"(reflect.Value).Method":        ext۰reflect۰Value۰Method,
+		"(reflect.Value).MethodByName":  ext۰reflect۰Value۰MethodByName,
+		"(reflect.Value).Call":          ext۰reflect۰Value۰Call,
+		"(reflect.Value).Convert":       ext۰reflect۰Value۰Convert,
+		"(reflect.Value).Addr":          ext۰reflect۰Value۰Addr,
+		"(reflect.Value).Pointer":       ext۰reflect۰Value۰Pointer,
+		"(reflect.Value).Set":           ext۰reflect۰Value۰Set,
+		"(reflect.Value).SetInt":        ext۰reflect۰Value۰SetInt,
+		"(reflect.Value).SetUint":       ext۰reflect۰Value۰SetUint,
+		"(reflect.Value).SetFloat":      ext۰reflect۰Value۰SetFloat,
+		"(reflect.Value).SetBool":       ext۰reflect۰Value۰SetBool,
+		"(reflect.Value).SetString":     ext۰reflect۰Value۰SetString,
+		"(reflect.Value).String":        ext۰reflect۰Value۰String,
+		"(reflect.Value).Type":          ext۰reflect۰Value۰Type,
+		"(reflect.Value).Uint":          ext۰reflect۰Value۰Uint,
+		"(reflect.error).Error":         ext۰reflect۰error۰Error,
+		"(reflect.rtype).Bits":          ext۰reflect۰rtype۰Bits,
+		"(reflect.rtype).Elem":          ext۰reflect۰rtype۰Elem,
+		"(reflect.rtype).Key":           ext۰reflect۰rtype۰Key,
+		"(reflect.rtype).Field":         ext۰reflect۰rtype۰Field,
+		"(reflect.rtype).In":            ext۰reflect۰rtype۰In,
+		"(reflect.rtype).Kind":          ext۰reflect۰rtype۰Kind,
+		"(reflect.rtype).NumField":      ext۰reflect۰rtype۰NumField,
+		"(reflect.rtype).NumIn":         ext۰reflect۰rtype۰NumIn,
+		"(reflect.rtype).NumMethod":     ext۰reflect۰rtype۰NumMethod,
+		"(reflect.rtype).Method":        ext۰reflect۰rtype۰Method,
+		"(reflect.rtype).MethodByName":  ext۰reflect۰rtype۰MethodByName,
+		"(reflect.rtype).IsVariadic":    ext۰reflect۰rtype۰IsVariadic,
+		"(reflect.rtype).NumOut":        ext۰reflect۰rtype۰NumOut,
+		"(reflect.rtype).Out":           ext۰reflect۰rtype۰Out,
+		"(reflect.rtype).Size":          ext۰reflect۰rtype۰Size,
+		"(reflect.rtype).String":        ext۰reflect۰rtype۰String,
+		"(reflect.rtype).Name":          ext۰reflect۰rtype۰Name,
+		"(reflect.rtype).PkgPath":       ext۰reflect۰rtype۰PkgPath,
+		"(reflect.rtype).AssignableTo":  ext۰reflect۰rtype۰AssignableTo,
+		"(reflect.rtype).ConvertibleTo": ext۰reflect۰rtype۰ConvertibleTo,
+		"(reflect.rtype).Implements":    ext۰reflect۰rtype۰Implements,
+		"(reflect.rtype).Comparable":    ext۰reflect۰rtype۰Comparable,
+		"(reflect.rtype).Len":           ext۰reflect۰rtype۰Len,
+		"(reflect.Kind).String":         func(fr *frame, args []value) value { return reflect.Kind(args[0].(uint)).String() },
+		"reflect.New":                   ext۰reflect۰New,
+		"reflect.SliceOf":               ext۰reflect۰SliceOf,
+		"reflect.TypeOf":                ext۰reflect۰TypeOf,
+		"reflect.ValueOf":               ext۰reflect۰ValueOf,
+		"reflect.Zero":                  ext۰reflect۰Zero,
+		"reflect.Append":                ext۰reflect۰Append,
+		"reflect.DeepEqual":             ext۰reflect۰DeepEqual,
 
 		"math.Float32bits":     extFloatBits(32),
 		"math.Float64bits":     extFloatBits(64),
@@ -109,13 +109,13 @@ func init() {
 		"math.IsNaN":           extIsNaN,
 		"math.IsInf":           extIsInf,
 
-		"fmt.Sprintf":  extSprintf,
-		"fmt.Sprint":   extSprint,
-		"fmt.Errorf":   extErrorf,
-		"fmt.Println":  func(fr *frame, args []value) value { return tuple{0, iface{}} },
-		"fmt.Printf":   func(fr *frame, args []value) value { return tuple{0, iface{}} },
-		"fmt.Print":    func(fr *frame, args []value) value { return tuple{0, iface{}} },
-		"errors.Is":    extErrorsIs,
+		"fmt.Sprintf": extSprintf,
+		"fmt.Sprint":  extSprint,
+		"fmt.Errorf":  extErrorf,
+		"fmt.Println": func(fr *frame, args []value) value { return tuple{0, iface{}} },
+		"fmt.Printf":  func(fr *frame, args []value) value { return tuple{0, iface{}} },
+		"fmt.Print":   func(fr *frame, args []value) value { return tuple{0, iface{}} },
+		"errors.Is":   extErrorsIs,
 
 		"(*strings.Builder).WriteString": extBuilderWriteString,
 		"(*strings.Builder).WriteByte":   extBuilderWriteByte,
@@ -177,7 +177,7 @@ func init() {
 		"unicode.IsSpace": unicode.IsSpace, "unicode.IsDigit": unicode.IsDigit, "unicode.IsLetter": unicode.IsLetter,
 		"unicode.IsUpper": unicode.IsUpper, "unicode.IsLower": unicode.IsLower, "unicode.ToUpper": unicode.ToUpper, "unicode.ToLower": unicode.ToLower,
 		"unicode.IsPrint": unicode.IsPrint,
-		"math.Abs": math.Abs, "math.Floor": math.Floor, "math.Ceil": math.Ceil, "math.Sqrt": math.Sqrt, "math.Pow": math.Pow,
+		"math.Abs":        math.Abs, "math.Floor": math.Floor, "math.Ceil": math.Ceil, "math.Sqrt": math.Sqrt, "math.Pow": math.Pow,
 		"math.Mod": math.Mod, "math.Trunc": math.Trunc, "math.Round": math.Round, "math.Log": math.Log, "math.Log2": math.Log2,
 		"math.Log10": math.Log10, "math.Exp": math.Exp, "math.Max": math.Max, "math.Min": math.Min, "math.Inf": math.Inf, "math.NaN": math.NaN,
 		"math.Sin": math.Sin, "math.Cos": math.Cos, "math.Tan": math.Tan,
@@ -414,7 +414,7 @@ func (s strVal) String() string { return string(s) }
 
 type symPlaceholder string
 
-func (s symPlaceholder) String() string { return string(s) }
+func (s symPlaceholder) String() string                { return string(s) }
 func (s symPlaceholder) Format(f fmt.State, verb rune) { f.Write([]byte(string(s))) }
 
 func lookupMethodByName(fr *frame, t types.Type, name string) *ssa.Function {
